@@ -268,17 +268,30 @@ class Documentable:
         # invariants assumed by various bits of pydoctor
         # and that are of course not written down anywhere
         # :/
-        self._handle_reparenting_pre()
+        system = self.system
+        # All the objects registered at or below the name of this object must be re-registered. 
+        # This includes the older definitions that have been superseded by a later definition 
+        # of the same name (see System.handleDuplicate): they are not in the contents of their parent anymore.
+        old_fullname = self.fullName()
+        subtree = [o for name, o in system.allobjects.items() 
+                   if name == old_fullname or name.startswith(old_fullname + '.')]
+        for o in subtree:
+            del system.allobjects[o.fullName()]
         old_parent = self.parent
         assert isinstance(old_parent, CanContainImportsDocumentable)
         old_name = self.name
         self.parent = self.parentMod = new_parent
         self.name = new_name
-        self._handle_reparenting_post()
         del old_parent.contents[old_name]
         old_parent._localNameToFullName_map[old_name] = self.fullName()
+        # An object with the same name might already be defined in the new parent, 
+        # it's superseded by this object like any other duplicate definition. 
+        previous = system.allobjects.get(self.fullName())
         new_parent.contents[new_name] = self
-        self._handle_reparenting_post()
+        if previous is not None and previous is not self:
+            system.handleDuplicate(self)
+        for o in subtree:
+            system.allobjects[o.fullName()] = o
 
     def _handle_reparenting_pre(self) -> None:
         del self.system.allobjects[self.fullName()]
@@ -1403,13 +1416,16 @@ class System:
             i += 1
         prev = self.allobjects[fullName]
         obj.report(f"duplicate {str(prev)}", thresh=1)
-        self._remove(prev)
+        # Everything registered at or below the name of the previous object is re-registered under the new name, 
+        # this includes older definitions of its members that have been superseded themselves 
+        # and are not in the contents of their parent anymore.
+        subtree = [o for name, o in self.allobjects.items() 
+                   if name == fullName or name.startswith(fullName + '.')]
+        for o in subtree:
+            del self.allobjects[o.fullName()]
         prev.name = obj.name + ' ' + str(i)
-        def readd(o: Documentable) -> None:
+        for o in subtree:
             self.allobjects[o.fullName()] = o
-            for c in o.contents.values():
-                readd(c)
-        readd(prev)
         self.allobjects[fullName] = obj
 
 
